@@ -245,6 +245,58 @@ fn display_checks(s: &mut Sink) {
             }
         }
     }
+    // Formatting flags. The property fixes the rendering as "[low, high]" etc. "with the
+    // element type's own formatting"; under a width / precision / sign flag two readings are
+    // sound and both are accepted: the flags are ignored (canonical text, what the code does
+    // today), or they are handed to the bounds; either may additionally be padded to the
+    // requested width. Anything else (truncated text, lost bracket, lost bound) is a violation.
+    macro_rules! flagged {
+        ($vals:expr, $ty:expr, $($spec:literal),+) => {{
+            for a in $vals.iter() {
+                for b in $vals.iter() {
+                    if !(a <= b) { continue; }
+                    let ivs = [
+                        (Interval::TwoSided(a.clone(), b.clone()), 0u8),
+                        (Interval::UpperOneSided(a.clone()), 1u8),
+                        (Interval::LowerOneSided(b.clone()), 2u8),
+                    ];
+                    for (iv, k) in ivs.iter() {
+                        $(
+                            s.evals += 1;
+                            s.calls += 1;
+                            let got = format!(concat!("{:", $spec, "}"), iv);
+                            let plain = match k {
+                                0 => format!("[{}, {}]", a, b),
+                                1 => format!("[{},->)", a),
+                                _ => format!("(<-,{}]", b),
+                            };
+                            let fwd = match k {
+                                0 => format!(concat!("[{:", $spec, "}, {:", $spec, "}]"), a, b),
+                                1 => format!(concat!("[{:", $spec, "},->)"), a),
+                                _ => format!(concat!("(<-,{:", $spec, "}]"), b),
+                            };
+                            // padding characters a width flag may add around the whole text
+                            let core = got.trim_matches(|c| c == ' ' || c == '*');
+                            let core0 = got.trim_start_matches('0');
+                            let ok = got == plain || got == fwd || core == plain || core == fwd || core0 == plain || core0 == fwd;
+                            s.outcome(&("display-flags", $spec, *k));
+                            if !ok {
+                                s.violation(
+                                    format!("display/flags/{}", ["TwoSided", "Upper", "Lower"][*k as usize]),
+                                    format!("{iv:?} formatted with {{:{}}} gives {got:?}; accepted: {plain:?} (flags ignored) or {fwd:?} (flags applied to the bounds), optionally padded", $spec),
+                                    json!({"check":"display","type":$ty}),
+                                );
+                            }
+                        )+
+                    }
+                }
+            }
+        }};
+    }
+    flagged!([-1.5f64, -0.0, 0.0, 2.0, 1.2345, 25.5, 1e21, 1e-7, f64::INFINITY], "f64", ".0", ".1", ".2", ".3", ".20", "1", "12", "<12", ">40", "^40", "*^40", "+", "08.3", "40.2", "+.1");
+    flagged!([-1.5f32, 0.0, 2.5, 1e21], "f32", ".0", ".2", "12", ">40.3", "+");
+    flagged!([-7i32, 0, 3, i32::MAX], "i32", ".0", ".2", "1", "12", "<30", "+", "08");
+    flagged!(["", "A", "a b", "\u{e9}xyz"], "&str", ".0", ".1", ".2", "1", "12", ">30");
     chk(&[-1.5, -0.0, 0.0, 2.0, 1e21, 1e-7, f64::INFINITY], "f64", s);
     chk(&[-1.5f32, 0.0, 2.5, 1e21], "f32", s);
     chk(&[-7, 0, 3, i32::MAX], "i32", s);
@@ -277,7 +329,7 @@ fn main() {
     s.sample(json!({"type":"f64","a":"TwoSided(1.0, 1e10)","b":"TwoSided(1.0000000000000002, 1e10)","tolerances":"eps in {0, d/2, d, 2d, default}, max_relative in {0, d/|x|/2, d/|x|, 2d/|x|, default}, max_ulps in {0, u-1, u, u+1, default}"}));
     s.sample(json!({"type":"f32","a":"UpperOneSided(1.0)","b":"LowerOneSided(1.0)","expect":"never approximately equal (different kinds), for every tolerance"}));
     s.sample(json!({"display":"UpperOneSided(-1.5)","expect":"[-1.5,->)"}));
-    rep.rule = "all ordered pairs of the 63 intervals over 9 bounds {-1,-0,+0,1,1+eps,1+2eps,1.0001,1e10,1e10(1+eps)} (f64 and f32) x tolerance grids generated from the pair's own bound differences (below, at and above each difference in absolute, relative and ulp terms, zero and defaults) through abs_diff_eq/relative_eq/ulps_eq, their _ne forms and reversed arguments; Display of every interval over float/int/str/char value sets; distinct by (method, kinds, observed, expected)".into();
+    rep.rule = "all ordered pairs of the 63 intervals over 9 bounds {-1,-0,+0,1,1+eps,1+2eps,1.0001,1e10,1e10(1+eps)} (f64 and f32) x tolerance grids generated from the pair's own bound differences (below, at and above each difference in absolute, relative and ulp terms, zero and defaults) through abs_diff_eq/relative_eq/ulps_eq, their _ne forms and reversed arguments; Display of every interval over float/int/str/char value sets, plain and under width/precision/sign/fill flags (accepted: flags ignored or applied to the bounds, optionally padded); distinct by (method, kinds, observed, expected)".into();
     rep.assume("the element type's own AbsDiffEq/RelativeEq/UlpsEq (approx crate) define 'approximately equal' for a bound");
     rep.require(s.distinct() >= 20, "fewer than 20 distinct classes: vacuous");
     std::process::exit(rep.finish(s));
